@@ -28,11 +28,19 @@ type c06Addr struct {
 	Invalid string `json:"invalid,omitempty"` // non-empty: this text is handed over instead (not an address)
 }
 
+// spec is the addr-spec in RFC 5322 syntax: a local part that is not a dot-atom is a quoted-string.
+func (a c06Addr) spec() string {
+	if strings.ContainsAny(a.Local, "@ \"(),:;<>[\\]") {
+		return quoteName(a.Local) + "@" + a.Domain
+	}
+	return a.Local + "@" + a.Domain
+}
+
 func (a c06Addr) text() string {
 	if a.Invalid != "" {
 		return a.Invalid
 	}
-	spec := a.Local + "@" + a.Domain
+	spec := a.spec()
 	if a.Name != "" {
 		return quoteName(a.Name) + " <" + spec + ">"
 	}
@@ -195,7 +203,7 @@ func c06Run(c c06Case) []*core.Violation {
 			}
 		case "addformat":
 			a := op.Addrs[0]
-			spec := a.Local + "@" + a.Domain
+			spec := a.spec()
 			if a.Invalid != "" {
 				spec = a.Invalid
 			}
@@ -357,6 +365,9 @@ func c06Run(c c06Case) []*core.Violation {
 			return
 		}
 		for i := range boxes {
+			if l, dm, ok := refsmtp.SplitPath(boxes[i].Addr); ok {
+				boxes[i].Addr = l + "@" + dm
+			}
 			if boxes[i].Addr != want[i].Local+"@"+want[i].Domain || strings.Trim(boxes[i].Name, " \t") != strings.Trim(want[i].Name, " \t") {
 				vs = append(vs, core.V("field-mismatch", "field %s mailbox %d is %+v, expected name %q addr %s@%s", field, i, boxes[i], want[i].Name, want[i].Local, want[i].Domain))
 			}
@@ -436,12 +447,19 @@ func c06Run(c c06Case) []*core.Violation {
 			vs = append(vs, core.V("send-failed", "DialAndSend returned %v, %d transactions\n%s", sendErr, len(s.Txns), tr))
 		} else {
 			t := s.Txns[0]
+			if l, dm, ok := refsmtp.SplitPath(t.From); ok {
+				t.From = l + "@" + dm
+			}
 			if t.From != wantSender {
 				vs = append(vs, core.V("wrong-sender", "MAIL FROM:<%s>, expected <%s> (envelope-from set: %v)", t.From, wantSender, len(model["env"]) > 0))
 			}
 			var got []string
 			for _, r := range t.Rcpts {
-				got = append(got, r.Path)
+				if l, dm, ok := refsmtp.SplitPath(r.Path); ok {
+					got = append(got, l+"@"+dm) // local part un-quoted
+				} else {
+					got = append(got, r.Path)
+				}
 			}
 			if strings.Join(got, " ") != strings.Join(wantRcpts, " ") {
 				vs = append(vs, core.V("wrong-recipients", "RCPT sequence %v, expected To+Cc+Bcc = %v", got, wantRcpts))
@@ -495,7 +513,9 @@ func c06GenAddr(t *rapid.T, hdr string, seq *int) c06Addr {
 	a.Local = fmt.Sprintf("%sq%dzq", hdr, *seq)
 	if rapid.IntRange(0, 4).Draw(t, "atext") == 0 {
 		// every atext special is legal in a local part (and must reach the envelope unchanged)
-		a.Local += rapid.SampledFrom([]string{"%s", "%d", "%%x", "+tag", "!#$&'*", "/=?^_`{|}~", "%example.org"}).Draw(t, "special")
+		a.Local += rapid.SampledFrom([]string{"%s", "%d", "%%x", "+tag", "!#$&'*", "/=?^_`{|}~", "%example.org",
+			// local parts that have to be quoted on the wire and in the header ('@', blank, ',' inside)
+			"@home", " spaced", ",comma", "@evil.test> NOTIFY=NEVER"}).Draw(t, "special")
 	}
 	if hdr != "bcc" && rapid.IntRange(0, 6).Draw(t, "dup") == 0 {
 		a.Local = hdr + "dupzq" // duplicates are legal: one RCPT per occurrence
@@ -543,6 +563,9 @@ func c06Gen(t *rapid.T) c06Case {
 				if kind == "fromstring" && (strings.Contains(a.text(), ",") || a.Invalid == " ") {
 					// ToFromString splits at commas itself: keep its inputs comma-free
 					a.Name, a.Invalid = "Plain Name", ""
+					if strings.Contains(a.Local, ",") {
+						a.Local = ""
+					}
 					if a.Local == "" {
 						seq++
 						a.Local, a.Domain = fmt.Sprintf("%sq%dzq", op.Hdr, seq), "example.com"
